@@ -54,6 +54,7 @@ static void diag_field(void) {
 	strcat(buf, "]");
 	ev_raw("diag", buf);
 	ev_int("errlen", (long long)n);
+	if (g_lemon && n) ev_bytes("stderr", e, n);          /* with the trace seam on: parsers that write their trace to stderr themselves (OPML / ITMZ import) */
 }
 
 static char * read_file(const char * path, size_t * n) {
